@@ -151,4 +151,147 @@ theorem listParseParts_ne_oob (triedNlst skipWs : Bool) (buf : Bytes) : listPars
           · split <;> simp
           · simp
 
+/-! ### the date always fits the static `tbuf` (or is the 24-byte ctime text) -/
+
+def DateFits (d : Option Bytes) : Prop := ∀ x, d = some x → x.length < tbufSize
+
+theorem inTbuf_fits (s : Bytes) : DateFits (some (inTbuf s)) := by
+  intro x hx
+  simp only [Option.some.injEq] at hx
+  subst hx
+  unfold inTbuf tbufSize
+  simp only [List.length_take]
+  omega
+
+theorem dateFits_none : DateFits none := by intro x hx; simp at hx
+
+theorem unixFound_date {buf : Bytes} {skipWs : Bool} {first size year : Tok} {date : Bytes} {p : Parts}
+    (h : unixFound buf skipWs first size year date = .found p) : p.date = some date := by
+  unfold unixFound at h
+  simp only at h
+  split at h
+  · exact absurd h (by simp)
+  · simp only [UnixStep.found.injEq] at h
+    subst h; rfl
+
+theorem unixMatch_date {buf : Bytes} {skipWs : Bool} {first size month day year : Tok} {p : Parts}
+    (h : unixMatch buf skipWs first size month day year = .found p) : DateFits p.date := by
+  unfold unixMatch at h
+  split at h
+  · exact absurd h (by simp)
+  · split at h
+    · rw [unixFound_date h]; exact inTbuf_fits _
+    · exact absurd h (by simp)
+
+theorem unixAt_date {buf : Bytes} {toks : List Tok} {skipWs : Bool} {i : Nat} {p : Parts}
+    (h : unixAt buf toks skipWs i = .found p) : DateFits p.date := by
+  unfold unixAt at h
+  split at h
+  · split at h
+    · exact absurd h (by simp)
+    · split at h
+      · exact absurd h (by simp)
+      · split at h
+        · exact absurd h (by simp)
+        · split at h
+          · exact absurd h (by simp)
+          · exact unixMatch_date h
+  · exact absurd h (by simp)
+
+theorem unixLoop_date {buf : Bytes} {toks : List Tok} {skipWs : Bool} {p : Parts} :
+    ∀ (fuel i : Nat), unixLoop buf toks skipWs fuel i = .found p → DateFits p.date
+  | 0, _ => by intro h; simp [unixLoop] at h
+  | fuel + 1, i => by
+    intro h
+    unfold unixLoop at h
+    split at h
+    · split at h
+      · exact unixLoop_date fuel (i + 1) h
+      · rename_i r hr
+        exact unixAt_date h
+    · exact absurd h (by simp)
+
+theorem dosBranch_date {toks : List Tok} {p : Parts} (h : dosBranch toks = .found p) : DateFits p.date := by
+  unfold dosBranch at h
+  split at h
+  · split at h
+    · split at h
+      · simp only [UnixStep.found.injEq] at h
+        subst h
+        exact inTbuf_fits _
+      · exact absurd h (by simp)
+    · exact absurd h (by simp)
+  · exact absurd h (by simp)
+
+/-- the EPLF date is either absent or the ctime(0) text -/
+def EplfDateOk (st : EplfState) : Prop := st.date = none ∨ st.date = some ctime0
+
+theorem eplfFact_date {ct : Bytes} {l : Nat} {st : EplfState} (h : EplfDateOk st) : EplfDateOk (eplfFact ct l st) := by
+  unfold eplfFact
+  split
+  · exact h
+  · exact h
+  · split
+    · exact h
+    · exact Or.inr rfl
+  · exact h
+  · exact h
+  · exact h
+
+theorem eplfLoop_date : ∀ (fuel : Nat) (ct : Bytes) (st : EplfState), EplfDateOk st → EplfDateOk (eplfLoop fuel ct st)
+  | 0, _, st, h => by simpa [eplfLoop] using h
+  | fuel + 1, ct, st, h => by
+    unfold eplfLoop
+    split
+    · exact h
+    · simp only
+      have h' : EplfDateOk (if (ct.takeWhile (· != 44)).length < 1 then st else eplfFact ct (ct.takeWhile (· != 44)).length st) := by
+        split
+        · exact h
+        · exact eplfFact_date h
+      split
+      · exact eplfLoop_date fuel _ _ h'
+      · exact h'
+
+theorem ctime0_fits : DateFits (some ctime0) := by
+  intro x hx
+  simp only [Option.some.injEq] at hx
+  subst hx
+  decide
+
+/-- Whatever ftpListParseParts stores in `p->date` went through the 128-byte `tbuf` with its terminator (or is ctime's
+26-byte static text): no line can make the date formatting write beyond `tbuf`. -/
+theorem listParseParts_date_fits {triedNlst skipWs : Bool} {buf : Bytes} {p : Parts}
+    (h : listParseParts triedNlst skipWs buf = .parts p) : DateFits p.date := by
+  unfold listParseParts at h
+  split at h
+  · exact absurd h (by simp)
+  · split at h
+    · simp only [ListOutcome.parts.injEq] at h
+      subst h; exact dateFits_none
+    · simp only at h
+      split at h
+      · exact absurd h (by simp)
+      · rename_i q hq
+        simp only [ListOutcome.parts.injEq] at h
+        subst h
+        exact unixLoop_date _ _ hq
+      · split at h
+        · exact absurd h (by simp)
+        · rename_i q hq
+          simp only [ListOutcome.parts.injEq] at h
+          subst h
+          exact dosBranch_date hq
+        · split at h
+          · split at h
+            · simp only [ListOutcome.parts.injEq] at h
+              subst h
+              simp only
+              have := eplfLoop_date buf.length buf.tail { type := 0, size := 0, date := none, name := none } (Or.inl rfl)
+              rcases this with e | e
+              · rw [e]; exact dateFits_none
+              · rw [e]; exact ctime0_fits
+            · exact absurd h (by simp)
+          · exact absurd h (by simp)
+
 end SquidModel.Ftp
